@@ -52,6 +52,11 @@ int main(int argc, char** argv) {
             for (size_t i = 0; i + 1 < t.size(); i += 2) fprintf(ft, "%zu %.9g %.9g\n", i / 2, t[i], t[i + 1]);
             fclose(ft);
         }
+        if (in.i("pp_direct")) {       // the parallel-plates model itself (not through the factory, whose sum clips to the requested length), optionally after an earlier request
+            float f0 = (float)(2.99792458e8 / (6.283185307179586 * in.d("R_bend")));
+            if (in.has("first_n")) e_parplates((size_t)in.i("first_n"), f0, (float)in.d("fmax"), in.d("gap"));
+            auto* v = e_parplates(n, f0, (float)in.d("fmax"), in.d("gap")); dumpz(fo, "pp", v->data(), v->size()); fclose(fo); return 0; }
+        if (in.has("first_n")) { std::string nf(""); e_make((size_t)in.i("first_n"), (float)in.d("fmax"), in.d("R_bend"), in.d("frev"), in.d("gap"), in.i("use_csr"), in.d("s"), in.d("xi"), in.d("coll"), &nf); }   // an earlier request of the same process (history)
         auto* z = e_make(n, (float)in.d("fmax"), in.d("R_bend"), in.d("frev"), in.d("gap"), in.i("use_csr"), in.d("s"), in.d("xi"), in.d("coll"), &none);
         if (z) dumpz(fo, "make", z->data(), z->size()); else fprintf(fo, "make 0\n");
         if (z) fprintf(fo, "sizes 2 %zu %zu\n", z->size(), z->nFreqs());
